@@ -437,7 +437,7 @@ def _build_cp_atom_payload(sequence, restrict, payload_form=False, interner=None
     for key, neg, pos in reversed(l):
         # only grab the deltas; if a + becomes a specific -
         neg = tuple(x for x in neg if x in changed or lget(x, True))
-        pos = tuple(x for x in pos if x in changed or not lget(x, False))
+        pos = tuple(x for x in pos if x in changed or x in neg or not lget(x, False))
         if neg or pos:
             changed.update(neg, pos)
             new_l.append(f(key, neg, pos))
